@@ -12,7 +12,16 @@ GENS = {  # Gen file -> (module, function)
 }
 
 
+def load_gens():
+    p = os.path.join(common.VERIF, "harness", "gens.json")
+    if os.path.exists(p):
+        import json
+        for k, v in json.load(open(p)).items():
+            GENS[k] = tuple(v)
+
+
 def main():
+    load_gens()
     ck = common.Check("setup", "quick", 0)
     for name, (mod, fn) in GENS.items():
         text = getattr(importlib.import_module(mod), fn)()
